@@ -69,6 +69,12 @@ CHECKS = {
         text="TimeoutExecutor over a manual base (optionally behind a blocking throttle so that the delegate's submit() consumes time) and f_timeout through the shared executor: for each future with deadline window [delegate-submit-return, submit-return]+timeout, the timeout thread must not call cancel() before the window, must call it exactly once inside the window (+0.01 s) if the future is still pending, and not at all if it finished before; outcomes of futures finished in time are kept.",
         design_ref="DESIGN.md section 4 (C09)", note=ENGINE_NOTE + " cancel() calls on library futures are observed by wrapping _Future.cancel from the harness (lib/world.py), not by a source hook."),
 
+    "C10": dict(
+        category="exploration",
+        technique="history-invariant property testing: exhaustive single-pre-emption sweeps of submit-vs-shutdown programs for each inner stack + Hypothesis-drawn programs (earlier futures pending/running/done, 1-3 racing submitters, resubmitting callbacks) with tapes and both clock modes; oracle = coverage of every returned future by the sweep, from the recorded cancel()/shutdown() calls",
+        text="CancelOnShutdownExecutor with a recording tap directly below it, over manual / retry / poll / map / throttle / thread-pool inner stacks: when shutdown() has returned, every future any submit() returned that was not done by then has had cancel() invoked exactly once by the shutting-down thread (never twice), the wrapped executor saw exactly one shutdown() with the same wait argument after the last cancel, and every racing submit() either raised the documented RuntimeError or returned a covered future.",
+        design_ref="DESIGN.md section 4 (C10)", note=ENGINE_NOTE + " cancel() calls are observed by wrapping Future.cancel/_Future.cancel from the harness."),
+
     "C14": dict(
         category="exploration",
         technique="model-based property testing: and/or fold over admissible linearisations of the completion events; exhaustive outcome x completion-order enumeration + Hypothesis-drawn concurrent completions under the deterministic scheduler",
